@@ -42,6 +42,33 @@ def run(ctx):
     r10_scalar_contexts(ctx)
     r11_counts(ctx)
     c04.r6_replay_buffer(ctx, rule="C09.R1")
+    r12_scalar_zero_is_a_feature(ctx)
+
+
+def r12_scalar_zero_is_a_feature(ctx, rule="C09.R12"):
+    """Where(n_features=...) counts the features of the first context: a scalar context 0 / 0.0 / False / '' is ONE feature; only None and empty containers are none."""
+    ctx.rule(rule, "Where._context_len never takes the falsiness of a context for its absence: wherever the context is tested for truth (`if not c`, `c or ..`, `.. if c else ..`) "
+                   "the same test also admits `c == 0` (the form `c or c == 0`)")
+    fn = ctx.fn(EF, "Where._context_len")
+    from ..util import bound_names
+    names = set(bound_names(fn, lambda v: isinstance(v, ast.Call) and call_tail(v) == "get" and v.args and const_str(v.args[0]) == "context")) or {"context"}
+    n = 0
+    for x in ast.walk(fn):
+        tests = []
+        if isinstance(x, (ast.If, ast.IfExp, ast.While)):
+            tests.append(x.test)
+        elif isinstance(x, ast.BoolOp) and not isinstance(parent(x), (ast.If, ast.IfExp, ast.While, ast.BoolOp, ast.UnaryOp)):
+            tests.append(x)
+        for t in tests:
+            bare = [y for y in ast.walk(t) if isinstance(y, ast.Name) and y.id in names and isinstance(parent(y), (ast.BoolOp, ast.UnaryOp, ast.If, ast.IfExp, ast.While))
+                    and not (isinstance(parent(y), (ast.If, ast.IfExp, ast.While)) and parent(y).test is not y)]
+            if not bare:
+                continue
+            n += 1
+            admits_zero = any(isinstance(c, ast.Compare) and len(c.ops) == 1 and isinstance(c.ops[0], ast.Eq) and {unparse(c.left), unparse(c.comparators[0])} & names
+                              and {unparse(c.left), unparse(c.comparators[0])} & {"0", "0.0"} for c in ast.walk(t))
+            ctx.ob(rule, EF, "Where._context_len", t, "a truth test of the context also admits the scalar 0 (a scalar context is one feature whatever its value)", admits_zero, detail={"test": unparse(t)})
+    ctx.floor(rule, "truth tests of the context in Where._context_len", n, 1)
 
 
 # ------------------------------------------------------------------------------------------ R1
@@ -545,6 +572,7 @@ def r7_sort_keys(ctx):
 
 
 CONTROLS = [
+    ("a falsy scalar context counts as no feature", EF, M.replace_expr("Where._context_len", "context or context == 0", "context"), "C09.R12"),
     ("falsy seeds fall back to the clock", "coba/random.py", M.replace_expr("CobaRandom.__init__", "seed is None", "not seed"), "C09.R2"),
     ("batching drops a short last batch", EF, M.replace_expr("Batch._batched", "batch", "len(batch) == n", nth=1), "C09.R11"),
     ("strict Take accepts a short prefix", PF, M.replace_expr("Take.filter", "len(out) < self._count", "len(out) < self._count - 1"), "C09.R11"),
